@@ -9,7 +9,7 @@ EXTENDS Diag, TLC
 CONSTANT MaxN
 VARIABLE x
 
-Opts == {[werror |-> w, maxerr |-> m, suppw |-> s, codeout |-> c] : w \in BOOLEAN, m \in 0..3, s \in BOOLEAN, c \in BOOLEAN}
+Opts == {[werror |-> w, maxerr |-> m, suppw |-> s, codeout |-> c, throw |-> FALSE] : w \in BOOLEAN, m \in 0..3, s \in BOOLEAN, c \in BOOLEAN}
 Ds == {[InitD EXCEPT !.err = Cnt(e), !.warn = Cnt(w), !.emE = e, !.emW = w] : e \in 0..2, w \in 0..2}
 Nums == {NumNullResMem, NumUnknownInstr, NumOpeningFile}
 Live(o, d) == o.maxerr = 0 \/ d.err < o.maxerr
